@@ -126,10 +126,23 @@ pub fn inputs(seed: u64, tier: Tier) -> Vec<In> {
         for (what, g) in super::c06::field_mutants(&f) {
             if keep.iter().any(|w| what.contains(w)) {
                 k += 1;
-                if what.contains("padding") || k % tier.pick(9, 3) == 0 {
+                if what.contains("padding") || what.contains("appended") || k % tier.pick(9, 3) == 0 {
                     all.push(In { label: format!("xz CRC-repaired mutant: {}", what), fmt: Fmt::Xz, opts: Opts::default(), bytes: xz::build(&g).0 });
                 }
             }
+        }
+    }
+    // bytes after the stream footer (null bytes in multiples of four are "stream padding" in the format; whatever the
+    // decoder thinks of them, it thinks the same under every fragmentation)
+    {
+        let (p, plain) = payload(0, 1, 9);
+        let (one, _) = xz::build(&XzFile { check_id: 1, blocks: vec![Block { payload: p, plain, ..Default::default() }], ..Default::default() });
+        for tr in [vec![0u8; 4], vec![0; 8], vec![0; 12], vec![0; 16], vec![0; 5], vec![0, 0, 0, 1], vec![0; 64]] {
+            let mut x = one.clone();
+            x.extend_from_slice(&tr);
+            all.push(In { label: format!("xz file followed by {} byte(s) {}", tr.len(), crate::common::brief_bytes(&tr)), fmt: Fmt::Xz, opts: Opts::default(), bytes: x.clone() });
+            x.extend_from_slice(&one);
+            all.push(In { label: format!("xz file followed by {} byte(s) {} and the file again", tr.len(), crate::common::brief_bytes(&tr)), fmt: Fmt::Xz, opts: Opts::default(), bytes: x });
         }
     }
     // XZ blocks whose declared compressed size (and the index, consistently) covers spare bytes after the LZMA2 end byte:
